@@ -50,6 +50,15 @@ func (d *typeDictionary) add(n Node, name string, td *Typedef) {
 	d.dict[n][name] = td
 }
 
+// merge adds all the typedefs of o to d.
+func (d *typeDictionary) merge(o *typeDictionary) {
+	for n, dict := range o.dict {
+		for name, td := range dict {
+			d.add(n, name, td)
+		}
+	}
+}
+
 // find returns the Typedef name define in node n, or nil.
 func (d *typeDictionary) find(n Node, name string) *Typedef {
 	defer d.mu.Unlock()
